@@ -62,7 +62,7 @@ def translate() -> dict:
         status = json.loads(out[out.index("{"):])
     except Exception:  # noqa: BLE001
         status = {k: {"ok": False, "error": "translator crashed: " + out[-400:]} for k in
-                  ("Unicode", "Regexes", "Tables", "Imports", "State", "Classes")}
+                  ("Unicode", "Regexes", "Tables", "Imports", "State", "Classes", "Leaf")}
     (LEAN / ".gen_status.json").write_text(json.dumps(status, indent=1))
     return status
 
@@ -153,6 +153,49 @@ def audit(pid: str) -> dict:
     return res
 
 
+TIE_THEOREM = {"Secs": "secs_tie", "NoteDur": "noteDur_tie", "BpmDecode": "bpmDecode_tie", "BpmValid": "bpmValid_tie",
+               "Nps": "nps_tie", "Anchor": "anchor_tie"}
+
+
+def leaf_ties(prop, st) -> dict:
+    """For each arithmetic leaf function the property's model relies on: is `eval(AST dumped from /repo) = hand model` still a
+    theorem (lake build of Tie/<X>.lean, axioms audited)? A tie that cannot be established is not a verdict about the code —
+    the correspondence check remains the tie — but it makes this run explore four times deeper."""
+    res = {}
+    for X in getattr(prop, "LEAVES", {}):
+        if not st.get("Leaf", {}).get("ok"):
+            res[X] = {"proved": False, "why": "translation of Gen/Leaf.lean failed: " + str(st.get("Leaf", {}).get("error"))[:200]}
+            continue
+        ok, out = lake_build([f"Chartparse.Tie.{X}"])
+        if not ok:
+            errs = re.findall(r"error: (.*)", out)
+            res[X] = {"proved": False, "why": ("the dumped AST is no longer provably the hand model: " + " | ".join(e[:160] for e in errs[:2]))}
+            continue
+        src = strip_comments((LEAN / "Chartparse" / "Tie" / f"{X}.lean").read_text()) + strip_comments((LEAN / "Chartparse" / "Tie" / "Common.lean").read_text())
+        adir = LEAN / ".audit"
+        adir.mkdir(exist_ok=True)
+        name = f"Chartparse.Tie.{TIE_THEOREM[X]}"
+        body = f"import Chartparse.Tie.{X}\n#print axioms {name}\n"
+        trace = LEAN / ".lake" / "build" / "lib" / "lean" / "Chartparse" / "Tie" / f"{X}.trace"
+        key = hashlib.sha256((body + (trace.read_text() if trace.exists() else str(time.time()))).encode()).hexdigest()
+        cache = adir / f"Tie{X}.json"
+        out2 = None
+        if cache.exists():
+            c = json.loads(cache.read_text())
+            out2 = c["out"] if c.get("key") == key else None
+        if out2 is None:
+            (adir / f"Tie{X}.lean").write_text(body)
+            rc, out2 = sh(["lake", "env", "lean", str(adir / f"Tie{X}.lean")], cwd=LEAN, timeout=1800)
+            if rc == 0:
+                cache.write_text(json.dumps({"key": key, "out": out2}))
+        flat = re.sub(r"\s+", " ", out2)
+        m = re.search(r"'" + re.escape(name) + r"' (does not depend on any axioms|depends on axioms: \[([^\]]*)\])", flat)
+        ax = [] if (not m or m.group(2) is None) else [a.strip() for a in m.group(2).split(",") if a.strip()]
+        clean = bool(m) and all(a in ALLOWED_AXIOMS for a in ax) and not FORBIDDEN.search(src)
+        res[X] = {"proved": clean, "theorem": name, "axioms": ax} if clean else {"proved": False, "why": f"axiom audit of {name} failed: {flat[-200:]}"}
+    return res
+
+
 def leanchecker(pid: str) -> tuple[bool, str]:
     rc, out = sh(["lake", "env", "leanchecker", f"Chartparse.Props.{pid}"], cwd=LEAN, timeout=3600)
     return rc == 0, out[-400:]
@@ -169,7 +212,7 @@ def setup() -> int:
         bad = [k for k, v in st.items() if not v.get("ok")]
         if bad:
             print("setup: translation of", bad, "failed (kept previous Gen files):", {k: st[k].get("error") for k in bad})
-        ok, out = lake_build(["Chartparse", "driver"])
+        ok, out = lake_build(["Chartparse", "driver"] + [f"Chartparse.Tie.{X}" for X in TIE_THEOREM])
         print(out[-3000:])
         if not ok:
             print("setup: lake build failed (the checks will rebuild per property and report)")
@@ -208,6 +251,8 @@ def run(pid: str, tier: str, seed: int) -> int:
             if not aud["ok"]:
                 # forbidden tokens / extra axioms are defects of the proof base, not of the code under test
                 infra += aud["problems"]
+        ties = leaf_ties(prop, st) if ok else {}
+        ctx.intensify = any(not v["proved"] for v in ties.values())
         chk = None
         if ok and tier == "thorough":
             cok, cout = leanchecker(pid)
@@ -221,6 +266,12 @@ def run(pid: str, tier: str, seed: int) -> int:
     out = None
     try:
         out = prop.slice(ctx)
+        if getattr(prop, "LEAVES", None) and driver_ok:
+            from verif import leaf
+            leaf.validate(ctx, out, list(prop.LEAVES.values()))
+            for X, v in ties.items():
+                out.notes.append(f"leaf tie {X}: " + (f"{v['theorem']} holds for the AST dumped from the working tree" if v["proved"]
+                                                      else f"NOT established ({v['why']}); tie = correspondence only, exploration ×4"))
     except Exception:  # noqa: BLE001
         infra.append("slice crashed: " + traceback.format_exc()[-1500:])
     violations = list(out.violations) if out else []
@@ -272,7 +323,7 @@ def run(pid: str, tier: str, seed: int) -> int:
             "traces_validated_against_impl": out.traces if out else 0,
             "distribution": dict(out.dist.most_common(40)) if out else {},
             "correspondence_mismatches": len(corr), "model_vs_truth_mismatches": len(out.model_bugs) if out else 0,
-            "search_evaluations": searched, "notes": out.notes if out else [],
+            "search_evaluations": searched, "notes": out.notes if out else [], "leaf_ties": ties,
         },
         "assumptions": getattr(prop, "ASSUMPTIONS", []),
         "wall_s": round(wall, 2), "violations": len(new_viol) + (1 if (broken or corr) and not new_viol else 0),
